@@ -63,6 +63,7 @@ class Module:
         self.functions = {}
         self.classes = {}
         self.assigns = {}
+        self.assign_chain = {}   # name -> every module-level (re)binding in order (a table may be built in several steps)
         for node in self.tree.body:
             if isinstance(node, ast.FunctionDef):
                 self.functions[node.name] = node
@@ -71,6 +72,9 @@ class Module:
             elif isinstance(node, ast.Assign) and len(node.targets) == 1 \
                     and isinstance(node.targets[0], ast.Name):
                 self.assigns[node.targets[0].id] = node
+                self.assign_chain.setdefault(node.targets[0].id, []).append(node)
+            elif isinstance(node, ast.AugAssign) and isinstance(node.target, ast.Name) and node.target.id in self.assigns:
+                self.assign_chain[node.target.id].append(node)
         # numpy alias(es) used in this module
         self.np_alias = set()
         self.imports = {}      # local name -> dotted origin
